@@ -241,7 +241,8 @@ def run(ctx):
                 replayed += 1
                 rep.restore(sv)
         ctx.part("graph_walk_%s" % conf["name"], states=len(nodes), edges=len(edges), edges_replayed=len(edge_list), wall_s=round(time.time() - t0, 1))
-        ctx.count(len(edge_list), distinct_key=("graph", conf["name"]))
+        for u, v, lab in edge_list:
+            ctx.count(1, distinct_key=(conf["name"], u, v, lab), nontrivial=(u != v))
         if conf is confs[0] and order:
             # a written-out sample behaviour
             u = order[min(len(order) - 1, 200)]
@@ -301,7 +302,7 @@ def run(ctx):
         "Params.tla explored exhaustively per configuration (depth bound, VIEW without the depth counter); each stated "
         "property checked in its own TLC run; every edge of the dumped state graph (or a seeded sample when above the tier's "
         "budget) and every simulated behaviour executed on a real VarsManager with projection comparison and observers; "
-        "distinct = (configuration, part) cells; bound maps on a numeric grid"
+        "distinct = distinct graph edges / behaviours / grid points executed on the real object (non-trivial: the edge changes the model state); bound maps on a numeric grid"
     )
     ctx.assume("complex values restricted to the lattice r*i^k (Cartesian form on an axis); bound in the state machine is the custom expression x+1 on [0,3]; analytic bound kinds only in the numeric part")
     ctx.assume("histories follow the order create, fix/free, tie, bound, then arbitrary interleaving (phase variable)")
